@@ -80,6 +80,40 @@ def near_misses(rng, valid):
     return out
 
 
+def directed_exps(rng, tier):
+    """2-primary discrete logs that exercise every window boundary of the table-driven square root"""
+    top = (1 << 47) - 1
+    es = [top, top - 1, top - 2, 1, 2, 3, 4, 1 << 46, (1 << 46) - 1, (1 << 46) + 1, 1 << 39, (1 << 39) - 1]
+    for w in (0, 7, 8, 15, 16, 23, 24, 31, 32, 39, 40):
+        for v in ((0xff, 0x80, 0x01, 0x7f) if tier == 'quick' else range(0, 256, 5)):
+            es.append((v << w) % (1 << 47))
+            es.append(((v << w) | 1) % (1 << 47))
+    es += [rng.getrandbits(47) for _ in range(6 if tier == 'quick' else 100)]
+    return sorted(set(es))
+
+
+def crafted(kind, rng, tier):
+    """(class, value) inputs of `kind` whose inner square-root ratio has a directed 2-primary component"""
+    out = []
+    es = directed_exps(rng, tier)
+    if tier == 'quick':
+        es = es[:6] + rng.sample(es[6:], 18) + [(1 << 47) - 1, (1 << 47) - 2]
+    for e in es:
+        v = M.craft(kind, e, rng)
+        if v is not None:
+            out.append(('crafted-2adic:%s' % ('top' if e >= (1 << 47) - 2 else ('odd' if e & 1 else 'even')), v))
+    return out
+
+
+def sqrt_premise_cases(rng, tier):
+    """the four-case contract of the square root is a premise of every theorem about encode/decode/Elligator:
+    its directed cases run with those properties too"""
+    cs = [c for c in gen_C09(rng, 'quick') if c.line.startswith('f.fq.srz')]
+    for c in cs:
+        c.cls = 'premise:' + c.cls
+    return cs
+
+
 ADD_FORMS_ARK = ['pp_rr', 'pp_or', 'pp_ro', 'pp_oo', 'pp_asg_r', 'pp_asg_o', 'aa_rr', 'aa_or', 'aa_ro', 'aa_oo', 'aa_asg_r',
                  'aa_asg_o', 'pa_or', 'pa_oo', 'ap_oo', 'ap_or', 'pa_asg_r', 'pa_asg_o']
 SUB_FORMS_ARK = ['pp_rr', 'pp_or', 'pp_ro', 'pp_oo', 'pp_asg_r', 'pp_asg_o', 'aa_rr', 'aa_or', 'aa_ro', 'aa_oo', 'aa_asg_r',
@@ -197,6 +231,14 @@ def gen_C01(rng, tier):
             return None if out == b else 'enc(dec(b)) != b'
         cases.append(Case(prog(['r1=dec.decompress:%s' % b, 'enc.compress:r1']), cls='bytes:' + cls, oracle=orc,
                           spec='spec.dec %s' % b))
+    for cls, sv in crafted('dec', rng, tier):
+        b = h32(sv)
+        def orc(out, bld, b=b):
+            if out.startswith('err-enc'):
+                return None
+            return None if out == b else 'enc(dec(b)) != b'
+        cases.append(Case(prog(['r1=dec.decompress:%s' % b, 'enc.compress:r1']), cls='bytes:' + cls, oracle=orc, spec='spec.dec %s' % b))
+    cases += sqrt_premise_cases(rng, tier)
     # every obtainable element: dec(enc(P)) == P, and the re-encoding is stable
     pg = ProgGen(rng, encs)
     reps = 1 if tier == 'quick' else 6
@@ -248,7 +290,7 @@ def random_program(rng, encs, build, length, mixforms=False):
         elif k == 4:
             stmts.append('%s=dbl%s:%s' % (rg, ('.' + rng.choice(DBL_FORMS_ARK)) if (mixforms and build == 'ark') else '', a))
         elif k == 5:
-            sc = rng.choice([0, 1, 2, r - 1, rng.randrange(r), rng.randrange(1 << 16)])
+            sc = rng.choice([0, 1, 2, r - 1, rng.randrange(r), rng.randrange(1 << 16), 1 << 64, 1 << 128, (1 << 192) + 5, rng.getrandbits(60) << 128])
             stmts.append('%s=mul%s:%s,%s' % (rg, f('MUL'), a, h32(sc)))
         elif k == 6 and build == 'ark':
             stmts.append('%s=aff%s:%s' % (rg, ('.' + rng.choice(AFF_FORMS_ARK)) if mixforms else '', a))
@@ -272,6 +314,11 @@ def gen_C02(rng, tier):
                 cases.append(Case(prog(['r1=dec.%s:%s' % (form, b), 'enc:r1']), builds=(bld,), cls='%s:%s' % (form, cls),
                                   spec='spec.dec %s' % b,
                                   oracle=lambda out, bld: 'decoding panicked' if out in ('panic', 'crash') else None))
+    for cls, sv in crafted('dec', rng, tier):
+        for bld, form in (('ark', 'decompress'), ('ark', 'deser_elem'), ('min', 'decompress')):
+            cases.append(Case(prog(['r1=dec.%s:%s' % (form, h32(sv)), 'enc:r1']), builds=(bld,), cls='%s:%s' % (form, cls), spec='spec.dec %s' % h32(sv),
+                              oracle=lambda out, bld: 'decoding panicked' if out in ('panic', 'crash') else None))
+    cases += sqrt_premise_cases(rng, tier)
     # slice lengths 0..80
     base = bytes.fromhex(h32(encs[3]))
     for ln in list(range(0, 81)):
@@ -319,6 +366,7 @@ def gen_C03(rng, tier):
                                   oracle=expect_fields(lambda f: f[0] == f[1] and f[2] == '1', 'same element, different encoding')))
             cases.append(Case(prog(stmts + ['f=aff:E', 'enc:E', 'enc:f', 'eq:E,f']), builds=('ark',), cls='rerep:affine:%s' % cls,
                               oracle=expect_fields(lambda f: f[0] == f[1] and f[2] == '1', 'same element, different encoding')))
+    cases += sqrt_premise_cases(rng, tier)
     # unequal elements encode differently
     be = pg.base_elems()
     for _ in range(15 if tier == 'quick' else 150):
@@ -464,15 +512,19 @@ def gen_C06(rng, tier):
         cases.append(Case(v(['E=gen.%s' % f]), builds=('ark',), cls='const:gen.' + f, oracle=expect('valid'), nomodel=True))
     for f in ID_FORMS_ARK:
         cases.append(Case(v(['E=id.%s' % f]), builds=('ark',), cls='const:id.' + f, oracle=expect('valid'), nomodel=True))
-    n = 30 if tier == 'quick' else 600
+    n = 60 if tier == 'quick' else 1200
     for i in range(n):
-        kind = rng.choice(['chacha', 'chacha', 'chacha', 'const'])
+        kind = rng.choice(['chacha', 'chacha', 'const', 'stuck', 'stuck'])
         form = rng.choice(['elem', 'aff', 'uniform', 'uniform_aff'])
         def orc(out, bld):
             if out == 'panic':
                 return None      # draw budget exhausted on a degenerate stream: no output, not a failure
             return None if out == 'valid' else 'sampler returned an invalid element'
-        cases.append(Case(v(['E=rand.%s:%s,%d' % (form, kind, rng.getrandbits(32))]), builds=('ark',), cls='rand:%s:%s' % (form, kind), oracle=orc, nomodel=True))
+        sd = rng.getrandbits(32)
+        if kind == 'stuck':
+            # a generator stuck on a small word for 50..6000 calls, then recovering
+            sd = rng.randrange(64) | (rng.choice([50, 300, 1000, 1300, 2000, 3000, 6000]) << 8)
+        cases.append(Case(v(['E=rand.%s:%s,%d' % (form, kind, sd)]), builds=('ark',), cls='rand:%s:%s' % (form, kind), oracle=orc, nomodel=True))
     # from_random_bytes over structured and random strings of length 0..64
     strs = []
     for ln in range(0, 65):
@@ -509,9 +561,12 @@ def gen_C07(rng, tier):
     cases = []
     vals = special_fq(rng, 20 if tier == 'quick' else 400)
     # the eight sage vectors (inputs)
-    for r0 in vals:
-        cases.append(Case(prog(['E=ell:%s' % h32(r0), 'enc:E', 'n=ell:%s' % h32((q - r0) % q), 'eq:E,n', 'd=redec:E', 'eq:d,E']), cls='elligator',
+    tagged = [('special' if i < len(vals) - (20 if tier == 'quick' else 400) else 'uniform', v) for i, v in enumerate(vals)] + crafted('ell', rng, tier)
+    for cls, r0 in tagged:
+        cases.append(Case(prog(['E=ell:%s' % h32(r0), 'enc:E', 'n=ell:%s' % h32((q - r0) % q), 'eq:E,n', 'd=redec:E', 'eq:d,E']), cls='elligator:' + cls,
                           spec='spec.ell3 %s' % h32(r0)))
+        vals.append(r0)
+    cases += sqrt_premise_cases(rng, tier)
     for _ in range(10 if tier == 'quick' else 200):
         a, b = rng.choice(vals), rng.choice(vals)
         cases.append(Case(prog(['h=h2c:%s,%s' % (h32(a), h32(b)), 'X=ell:%s' % h32(a), 'Y=ell:%s' % h32(b), 's=add:X,Y', 'eq:h,s', 'enc:h', 'enc:s']), cls='hash_to_curve',
@@ -794,6 +849,10 @@ def gen_C12(rng, tier):
             cases.append(Case('f.%s.from_bytes_checked %s' % (fld, hN(rng.getrandbits(8 * n8) if rng.random() < .5 else a, n8)), cls='field:from_bytes_checked'))
             cases.append(Case('f.%s.to_bytes %s' % (fld, H(a)), cls='field:to_bytes'))
             cases.append(Case('f.%s.from_u128 %d' % (fld, rng.getrandbits(128)), cls='field:from_u128'))
+            xs = [rng.choice(vs + [rng.randrange(m)]) for _ in range(rng.choice([0, 0, 1, 2, 5]))]
+            arg = ','.join(H(x) for x in xs) if xs else '-'
+            cases.append(Case('f.%s.sum.%s %s' % (fld, rng.choice(['own', 'ref']), arg), cls='field:sum'))
+            cases.append(Case('f.%s.product.%s %s' % (fld, rng.choice(['own', 'ref']), arg), cls='field:product'))
             if fld == 'fq':
                 cases.append(Case('f.fq.srz %s %s' % (H(a), H(b)), cls='field:srz'))
                 cases.append(Case('f.fq.select %s %s %d' % (H(a), H(b), rng.randrange(2)), cls='field:select'))
@@ -1140,7 +1199,7 @@ def gen_C16(rng, tier):
 
 # properties whose Props/Cxx.lean carries kernel-checked property theorems are claimed at level `proof`;
 # the others run the correspondence + oracle only until their theorems land
-LEVELS = {'C16': 'proof', 'C15': 'other'}
+LEVELS = {'C16': 'proof', 'C15': 'other', 'C04': 'proof', 'C05': 'proof', 'C08': 'proof'}
 
 TB_FIELD = ['arkworks Montgomery arithmetic and fiat-crypto primitives: modelled by contract (exact arithmetic mod p)']
 
